@@ -339,6 +339,7 @@ def parse_model(v, case):
     obs, edges = v
     m = G.parse_obs(obs)
     if isinstance(m, dict):
+        m["bins"] = G.expected_bins(case["ax"])
         if case.get("mode_a"):
             m["kept"] = True
         if case.get("keep_temp"):
@@ -381,6 +382,7 @@ def oracle(case):
     exp = {"symm": bool(case["symm"]), "cols": [[c, b] for c, b in cols],
            "off": [sum(1 for (i, _) in keys if i < b) for b in range(n + 1)], "px": px, "nnz": len(px),
            "sum": sum(r[2][names.index("count")] for r in px) if "count" in names else 0}
+    exp["bins"] = G.expected_bins(case["ax"])
     if case.get("mode_a"):
         exp["kept"] = True                   # the cooler that was already in the file is untouched
     return exp
@@ -392,7 +394,7 @@ def check_oracle(ctx, case, got, exp):
     if not isinstance(got, dict):
         ctx.fail(case, {"expected": exp, "got": got}, None)
         return
-    core = {k: got[k] for k in ("symm", "cols", "off", "px", "nnz", "sum", "kept") if k in got}
+    core = {k: got[k] for k in ("symm", "cols", "off", "px", "nnz", "sum", "kept", "bins") if k in got}
     if core != exp:
         ctx.fail(case, {"expected": exp, "got": core}, None)
         return
@@ -654,6 +656,129 @@ def audit_cases(rng):
     return cs
 
 
+# --------------------------------------------------------------------- history pass: state carried between calls
+def _agg_chunks(raw_chunks, symm, ncols, count_records):
+    """what sanitize_pixels(tril_action='reflect') + aggregate_records hand over for each raw chunk"""
+    out = []
+    for ch in raw_chunks:
+        acc = {}
+        for (a, b, vals) in ch:
+            if symm and a > b:
+                a, b = b, a
+            row = acc.setdefault((a, b), [0] * (ncols + (1 if count_records else 0)))
+            if count_records:
+                row[0] += 1
+            for i, v in enumerate(vals):
+                row[i + (1 if count_records else 0)] += v
+        out.append([[a, b, v] for (a, b), v in sorted(acc.items())])
+    return out
+
+
+def history_steps():
+    three = [[(0, 1, [3]), (1, 2, [5])], [(0, 1, [1]), (2, 2, [7])], [(1, 2, [2]), (2, 3, [1])]]
+    other = [[(0, 0, [2]), (0, 3, [1]), (3, 3, [4])], [], [(0, 3, [5]), (1, 1, [1])], [(2, 3, [6])]]
+    six = [[(0, 5, [1]), (2, 2, [2]), (4, 5, [3])], [(0, 5, [2]), (1, 1, [5]), (4, 4, [1]), (5, 5, [4])]]
+    xa = [[(0, 1, [3, 4]), (1, 2, [5, -1])], [(0, 1, [1, 6]), (2, 2, [7, 0])]]
+    xb = [[(0, 4, [1, 1]), (2, 2, [2, 2])], [(0, 4, [5, 5])], [(1, 1, [1, 0]), (2, 2, [1, 1]), (4, 4, [3, 3])]]
+    S = []
+    S.append(dict(ax="A4", symm=True, cols=COLS1, chunks=three, mergebuf=1, max_merge=2, form="same-list", key="L1"))
+    S.append(dict(ax="A4", symm=True, cols=COLS1, chunks=three, mergebuf=3, max_merge=1, form="same-list", key="L1"))   # the same list object again
+    S.append(dict(ax="A4var", symm=True, cols=COLS1, chunks=other, mergebuf=1, max_merge=2, form="gen"))      # same chromsizes and nbins, other bins
+    S.append(dict(ax="V4", symm=True, cols=COLS1, chunks=three, mergebuf=1, max_merge=2, form="tuple"))
+    S.append(dict(ax="A6", symm=True, cols=COLS1, chunks=six, mergebuf=1, max_merge=1, form="iter"))
+    S.append(dict(ax="B5", symm=True, cols=COLS2, chunks=xa, mergebuf=1, max_merge=1, form="list", key="K1"))  # same columns list / dtypes dict objects
+    S.append(dict(ax="B5", symm=True, cols=COLS2, chunks=xb, mergebuf=2, max_merge=2, form="gen", key="K1"))
+    S.append(dict(ax="A4", symm=False, cols=COLS1, chunks=[[(3, 0, [1])], [(0, 3, [2]), (3, 0, [4])]], mergebuf=1, max_merge=1, form="list"))
+    # the same sanitizer and aggregator OBJECTS for two consecutive ingests (raw chunks: unsorted, lower triangle, repeated pixels)
+    r1 = [[(3, 1, [2]), (0, 1, [1]), (1, 3, [4]), (1, 0, [5])], [(2, 2, [1]), (1, 0, [1])]]
+    r2 = [[(4, 0, [7])], [(0, 4, [1]), (4, 4, [2]), (4, 4, [3])], [(1, 1, [1])]]
+    S.append(dict(ax="B5", symm=True, cols=COLS1, raw=r1, mergebuf=1, max_merge=1, form="gen", pipe="P1"))
+    S.append(dict(ax="B5", symm=True, cols=COLS1, raw=r2, mergebuf=1, max_merge=2, form="gen", pipe="P1"))
+    # the same `agg` dict object handed to two aggregate_records calls: records counted first, not counted afterwards
+    q1 = [[(0, 1, [5]), (1, 0, [2]), (2, 2, [1])], [(0, 1, [1])]]
+    S.append(dict(ax="B5", symm=True, cols=[("count", 32), ("score", 32)], raw=q1, mergebuf=1, max_merge=1, form="gen", aggdict="D1", count_records=True))
+    S.append(dict(ax="B5", symm=True, cols=[("score", 32)], raw=q1, mergebuf=1, max_merge=1, form="gen", aggdict="D1", count_records=False))
+    return S
+
+
+def history_pass(ctx, root):
+    """ONE process; the SAME output path, temp dir, bin-table / argument / chunk-list / sanitizer / aggregator objects across
+    consecutive ingests whose data, bin table and columns change in between; generator vs list vs tuple vs iterator"""
+    import cooler
+    from cooler.create import aggregate_records, sanitize_pixels
+    hroot = os.path.join(root, "history")
+    td = os.path.join(hroot, "tmp")
+    os.makedirs(td, exist_ok=True)
+    out = os.path.join(hroot, "out.cool")
+    objs, binobj = {}, {}
+    done = []
+    for step_no, st in enumerate(history_steps()):
+        cols = [tuple(c) for c in st["cols"]]
+        names = [c for c, _ in cols]
+        bins = binobj.setdefault(st["ax"], G.bins_df(st["ax"]))          # one DataFrame object per bin table, reused
+        if "raw" in st:
+            vcols = [c for c in names if c != "count"] if "aggdict" in st else names
+            chunks = _agg_chunks(st["raw"], st["symm"], len(vcols), st.get("count_records", False))
+            if st.get("count_records") is False and "aggdict" in st:
+                pass
+        else:
+            chunks = st["chunks"]
+        case = api_case(st["ax"], st["symm"], cols, chunks, st["mergebuf"], st["max_merge"])
+        case["history_step"] = step_no
+        try:
+            with warnings.catch_warnings():
+                warnings.simplefilter("ignore")
+                with G.time_limit(30.0):
+                    if "raw" in st:
+                        vcols = [c for c in names if c != "count"] if "aggdict" in st else names
+                        frames = [chunk_frame(ch, [(c, 0) for c in vcols]) for ch in st["raw"]]
+                        if "pipe" in st:
+                            p = objs.setdefault(st["pipe"], (sanitize_pixels(bins, tril_action="reflect", sort=False),
+                                                             aggregate_records(sort=True, count=False, agg={"count": "sum"})))
+                            san, aggr = p
+                        else:
+                            d = objs.setdefault(st["aggdict"], {"score": "sum"})
+                            san = sanitize_pixels(bins, tril_action="reflect", sort=False)
+                            aggr = aggregate_records(sort=True, count=st["count_records"], agg=d)
+                        frames = [aggr(san(f)) for f in frames]
+                    else:
+                        frames = [chunk_frame(ch, cols) for ch in chunks]
+                    if st.get("form") == "same-list":
+                        frames = objs.setdefault(st["key"], frames)
+                    pixels = {"gen": (f for f in frames), "list": frames, "same-list": frames,
+                              "tuple": tuple(frames), "iter": iter(frames)}[st["form"]]
+                    if st.get("key") and st["form"] != "same-list":
+                        o = objs.setdefault(st["key"], {"columns": list(names), "dtypes": {c: G.np_dtype(b) for c, b in cols}})
+                        kw = {"columns": o["columns"], "dtypes": o["dtypes"]}
+                    else:
+                        kw = {"columns": list(names), "dtypes": {c: G.np_dtype(b) for c, b in cols}}
+                    snap = (list(kw["columns"]), dict(kw["dtypes"]), [f.copy() for f in frames], bins.copy())
+                    cooler.create_cooler(out, bins, pixels, ordered=False, symmetric_upper=bool(st["symm"]),
+                                         mergebuf=st["mergebuf"], max_merge=st["max_merge"], temp_dir=td, **kw)
+                    got = G.obs_of_raw(G.read_raw(out, names))
+                    got["temp_left"] = G.listdir_sorted(td)
+                    got["caller_args_unchanged"] = (snap[0] == kw["columns"] and snap[1] == kw["dtypes"] and bins.equals(snap[3])
+                                                    and all(a.equals(b) for a, b in zip(snap[2], frames)))
+        except BaseException as e:  # noqa: BLE001
+            if isinstance(e, (KeyboardInterrupt, SystemExit)):
+                raise
+            got = G.classify(e)
+        done.append((case, got))
+    mvals = C.coq_eval(G.IMPORTS, [model_expr(case) for case, _ in done], tmpdir=ctx.tmp / "hist", jobs=2)
+    for (case, got), mo in zip(done, mvals):
+        ctx.case(case, nontrivial=True, kind="history")
+        mod = parse_model(mo, case)
+        exp = oracle(case)
+        if isinstance(mod, dict):
+            mod["caller_args_unchanged"] = True
+        ctx.compare("create_from_unordered (history pass)", case, got, mod)
+        if exp is not None:
+            exp["caller_args_unchanged"] = True
+            exp["temp_left"] = []
+            if not isinstance(got, dict) or {k: got.get(k) for k in exp} != exp:
+                ctx.fail(case, {"expected": exp, "got": got}, None)
+
+
 def nontrivial(case):
     chunks = effective(case)[0]
     seen, shared = set(), False
@@ -733,6 +858,7 @@ def run(ctx):
         for case, got in grp[1:]:
             if canon(got) != canon(grp[0][1]):
                 ctx.fail(case, {"result depends on the chunk order": got, "first order": grp[0][1]}, None)
+    history_pass(ctx, root)
     linspace_check(ctx)
     # merge_breakpoints is an anchored mechanism of this property too: function-level comparison on a reduced family
     import c07
